@@ -335,6 +335,15 @@ func c01KeyFor(ds []c01Diff, src string) string {
 	if all {
 		return "C01:F14-merge-duplicates-outer-rows"
 	}
+	allExtra := len(ds) > 0
+	for _, d := range ds {
+		if !c01IsExtraAtUntypedMap(d, src) {
+			allExtra = false
+		}
+	}
+	if allExtra {
+		return "C01:F38-extra-members-at-untyped-map-after-narrowing"
+	}
 	if ds[0].Class == "forks-under-empty-map" {
 		// several forks of a stage ran below a mapped call over an empty / null collection
 		return "C01:F33-inner-forks-under-null-outer-element"
@@ -384,7 +393,7 @@ func runC01(c *Ctx) {
 	r := c.Res
 	r.Rule = "program with >=1 map call or disabled binding, >=2 jobs, run to completion; distinct by (program, order in which jobs finished)"
 	start := time.Now()
-	nGen, nSched := 150, 2
+	nGen, nSched := 120, 2
 	if c.Thorough {
 		nGen, nSched = 1200, 3
 	}
@@ -403,6 +412,8 @@ func runC01(c *Ctx) {
 	cases = append(cases, c01NarrowFamilies(rand.New(rand.NewSource(c.Seed*104729+17)), c.Thorough)...)
 	cases = append(cases, c01MapStaticFamily(rand.New(rand.NewSource(c.Seed*104729+23)), c.Thorough)...)
 	cases = append(cases, c01AliasTwiceFamily(rand.New(rand.NewSource(c.Seed*104729+29)), c.Thorough)...)
+	cases = append(cases, c01UntypedMapFamily(rand.New(rand.NewSource(c.Seed*104729+31)), c.Thorough)...)
+	cases = append(cases, c01NullCtlFamily(rand.New(rand.NewSource(c.Seed*104729+37)), c.Thorough)...)
 	optsList := []GenOpts{
 		{},
 		{MaxDepth: 3, MaxCalls: 3},
@@ -467,7 +478,8 @@ func runC01(c *Ctx) {
 			}
 			r.hist("final:" + final)
 			if strings.HasPrefix(cs.name, "family/narrow-") || strings.HasPrefix(cs.name, "family/disabled-same-stage") ||
-				strings.HasPrefix(cs.name, "family/map-") || strings.HasPrefix(cs.name, "family/alias-twice") {
+				strings.HasPrefix(cs.name, "family/map-") || strings.HasPrefix(cs.name, "family/alias-twice") ||
+				strings.HasPrefix(cs.name, "family/untyped-map") || strings.HasPrefix(cs.name, "family/null-control") {
 				cls := strings.Join(strings.SplitN(strings.TrimPrefix(cs.name, "family/"), "-", 3)[:2], "-")
 				r.hist("family:" + cls + ":" + final)
 				if final != "complete" && si == cs.specs[0] {
